@@ -13,6 +13,7 @@ func propC08(c *Ctx) {
 		return
 	}
 	c.ruleC08Scanner(m)
+	c.ruleUnquote()
 }
 
 func propC13(c *Ctx) {
@@ -38,5 +39,9 @@ func propC12(c *Ctx) {
 		return
 	}
 	c.ruleC12(m)
+	// an Annotation lexeme must end at the first "*/": the same rule as C08-ANNOTATION-FORMS
+	c.R.Only = func(rule string) bool { return rule == "C08-ANNOTATION-FORMS" }
+	c.ruleC08Scanner(m)
+	c.R.Only = nil
 	c.ruleFirstByteTables("C12-KEYWORD-PREFILTER") // a Description's Text lexeme must end where the next directive starts
 }
